@@ -744,7 +744,10 @@ func (e *env) main(inClose, closeReturned *bool) {
 					if other := p.InstByID(r.Sub); other != nil {
 						ctx.Log("proc-lookup", pr.ID+"@"+name, r.Sub)
 						if _, err := theApp.GetComponentByName(p.NameOf(other)); err != nil {
-							return err
+							if !r.Tolerant {
+								return err
+							}
+							ctx.Log("proc-lookup-tolerated", pr.ID+"@"+name, r.Sub)
 						}
 					}
 				}
